@@ -234,7 +234,7 @@ pub fn property() -> Property {
         assumptions: &["NumberPolicy::Custom(n) is generated over the whole range for which n + game length fits in usize (including values around 2^63 and near usize::MAX); beyond that usize arithmetic itself overflows and no property speaks about it"],
         subchecks: vec![SubCheck {
             name: "walk_and_print",
-            driver: Driver::Generated { gen: gen_case, genome_len: 512, quick: 120_000, thorough: 2_500_000 },
+            driver: Driver::Generated { gen: gen_case, genome_len: 512, quick: 360_000, thorough: 2_880_000 },
             check: check_case,
             configs: Configs::Both,
             required: &["walker_start", "walker_end", "direction_change_after_jump", "black_starts", "empty_chain", "outcome_stored", "ten_or_more_moves", "move_number_at_limit"],
